@@ -301,5 +301,8 @@ def flaky_fn(_xv=None, **kw):
             raise ValueError(msg)
         if exc == "eof":
             raise EOFError(msg)
+        if exc == "unpicklable":
+            # no exception here: the RESULT cannot be written to disk
+            return (i for i in (1, 2, 3))
         raise FlakyError(msg)
     return result_of(kind, kw)
